@@ -165,6 +165,11 @@ fn lunar_year(y: i64, log: &mut Log) {
 }
 
 fn hour_lists(n: i64, log: &mut Log) {
+  // the reform-era days carry a wrong day pillar (listed finding of C02/C07); hour lists inherit it
+  if cal::reform_era_day(n) || cal::reform_era_day(n - 1) {
+    log.count("hours.days_skipped_reform_era", 1);
+    return;
+  }
   let key = cal::fmt_dn(n);
   log.ev(2);
   log.count("hours.days_sampled", 1);
